@@ -190,6 +190,9 @@ func (cf *Frame) evalModLocs(ct *Contract, pre *State) []modLoc {
 
 // frameAxiom: after is before except at locs and at references allocated at or after `limit`.
 func (f *Frame) frameAxiom(comp string, before, after *Term, locs []modLoc, limit *Term) *Term {
+	if isGhostRegister(comp) {
+		return True // ghost counters and registers are not memory
+	}
 	if strings.HasPrefix(comp, "G.") {
 		for _, l := range locs {
 			if l.comp == comp {
@@ -361,6 +364,9 @@ func (f *Frame) assumeFrameSinceEntry(st *State, comps map[string]Sort) {
 	}
 	sort.Strings(names)
 	for _, k := range names {
+		if isGhostRegister(k) {
+			continue // ghost counters and registers are not memory
+		}
 		after := st.heap[k]
 		before := f.ctx.comp(top.entry, k, comps[k])
 		f.ctx.assume(f.frameAxiom(k, before, after, top.modLocs, top.entry.alloc))
@@ -381,4 +387,11 @@ func spareCapacity(ct *Contract) bool {
 		}
 	}
 	return false
+}
+
+// isGhostRegister: scalar ghost state of the function under verification (call counters, last-call
+// registers, at-call let registers) - not an array indexed by references like the heap components and
+// the callee-owned set.
+func isGhostRegister(name string) bool {
+	return strings.HasPrefix(name, "$ncalls!") || strings.HasPrefix(name, "$lastarg!") || strings.HasPrefix(name, "$lastres!") || strings.HasPrefix(name, "$let!")
 }
